@@ -3,7 +3,7 @@
 (* The twenty properties C01..C20 as predicates over explicit state        *)
 (* records; dispatch for the trace spec (CheckStepP) and accumulators.     *)
 (***************************************************************************)
-EXTENDS PropsPanic, PropsTx, PropsAuth
+EXTENDS PropsPanic, PropsInteg, PropsAuth
 
 Acc0 == [c15 |-> C15Acc0, c02 |-> C02Acc0, c07 |-> C07Acc0, c12 |-> C12Acc0]
 AccNext(acc, pre, e, post) ==
@@ -11,6 +11,8 @@ AccNext(acc, pre, e, post) ==
    c02 |-> C02AccNext(acc.c02, pre, e, post),
    c07 |-> C07AccNext(acc.c07, pre, e, post),
    c12 |-> C12AccNext(acc.c12, pre, e, post)]
+
+Wired == {"C01", "C02", "C03", "C04", "C05", "C06", "C07", "C08", "C09", "C10", "C11", "C12", "C13", "C14", "C15", "C16", "C17", "C18", "C19", "C20"}
 
 \* invariants evaluated on a freshly reset state
 CheckInvP(want, s, e, line) == TRUE
@@ -34,4 +36,8 @@ CheckStepP(want, pre, e, post, acc, line) ==
   /\ (want["C19"]) => C19(pre, e, post, line)
   /\ (want["C10"]) => C10(pre, e, post, line)
   /\ (want["C11"]) => C11(pre, e, post, line)
+  /\ (want["C18"]) => C18(pre, e, post, line)
+  /\ (want["C20"]) => C20(pre, e, post, line)
+  \* guard against vacuity: a requested property without a predicate above is an error of the machinery
+  /\ \A p \in DOMAIN want : (want[p] /\ p \notin Wired) => Chk("TOOL", "property_not_wired_into_trace_spec", line, FALSE, [property |-> p])
 =============================================================================
